@@ -14,7 +14,8 @@ UNITS = (
   + import_units('C07', names=['ufunc_shape.bp'], clause='element-wise operands that do not broadcast: Nothing')
   + import_units('C03', names=['normalize_axis.bp', 'normalize_axes.bp'], clause='out-of-range axes: Nothing iff axis < -ndim or axis >= ndim')
   + import_units('C03', names=['product.contract.uf', 'count_negative_reshape.contract.uf', 'shape_reshape.uf', 'shape_reshape.safe.bp'], clause='reshape with a mismatching element count, more than one -1 or a zero/negative extent: Nothing, never a crash')
-  + import_units('C03', names=['moveaxis_to_transpose.bp'], clause='moveaxis with invalid axes: Nothing')
+  + import_units('C03', names=['moveaxis_to_transpose.bp', 'moveaxis_l2.bp', 'moveaxis_list.bounded'], clause='moveaxis with invalid axes (out of range, repeated after normalisation, length mismatch): Nothing')
+  + import_units('C16', names=['shape_matmul.bp'], clause='matmul operand shapes that do not agree (inner extents, batch extents not broadcastable): Nothing')
   + import_units('C04', names=['shape_pad.bp', 'pad.bp', 'shape_roll.bp', 'shape_roll_axes.bp', 'shape_concatenate.bp', 'shape_resize.bp'], clause='invalid pad / roll / concatenate / resize arguments: Nothing iff NumPy raises')
   + import_units('C08', names=['remove_dims.int_true', 'remove_dims.int_false', 'reduction_slices.int_true', 'reduction_slices.int_false', 'reduction_slices.axes'], clause='an empty optional is never dereferenced: unwrap(normalize_axis(..)) is safe under the validated-axis precondition')
 )
